@@ -188,3 +188,19 @@ void lemma_ArrayInit(void)
   else { __CPROVER_assert(a != NULL && e == NULL && a->n_crystal == 0 && a->n_alloc == n && wf(a), "a fresh collection is empty, well formed, with the requested capacity"); Crystal_ArrayFree(a); __CPROVER_assert(0, "CANARY init"); }
   Crystal_ArrayFree(NULL); Crystal_Free(NULL);
 }
+
+/* copies keep the whole name: a concrete name longer than any limit used elsewhere in the file reader (25 characters) */
+void lemma_MakeCopy_long_name(void)
+{
+  static char nm[] = "abcdefghijklmnopqrstuvwxy";
+  Crystal_Atom at[1]; Crystal_Struct c, *k; xrl_error *e = NULL;
+  c.name = nm; c.n_atom = 1; c.atom = at; nd_cell(&c);
+  g_fail = 0;
+  k = Crystal_MakeCopy(&c, &e);
+  __CPROVER_assert(k != NULL && e == NULL && k->name != nm && k->atom != at, "Crystal_MakeCopy returns an independent copy");
+  __CPROVER_assert(strcmp(k->name, nm) == 0, "the copy carries the complete name");
+  __CPROVER_assert(k->n_atom == 1 && k->atom[0].Zatom == at[0].Zatom && __CPROVER_equal(k->a, c.a) && __CPROVER_equal(k->volume, c.volume), "the copy carries the geometry and atoms");
+  Crystal_Free(k);
+  __CPROVER_assert(Crystal_MakeCopy(NULL, &e) == NULL && e != NULL && g_fail == 1, "Crystal_MakeCopy(NULL) is NULL and one error");
+  __CPROVER_assert(0, "CANARY long name");
+}
